@@ -880,3 +880,10 @@ THEOREMS = THEOREMS + ["OdxVerif.Codec." + t for t in [
     "C05_jump_is_not_a_read", "C05_truncated_rejected_comps", "C05_truncated_rejected_described", "C05_truncated_rejected_described2",
     "C05_truncated_leaf_described",
     "C05_truncated_leaf_described_example", "Comps.reads_prefix", "Reads.rejected", "Reads.msg", "keeps_decode_all", "c5Req_reads"]]
+
+
+# --- W24 (compu-method / DTC leaves in the nested tier: Described3) — appended
+LEAN_TARGETS = LEAN_TARGETS + ["OdxVerif.Props.C05Nested3"]
+THEOREMS = THEOREMS + ["OdxVerif.Codec." + t for t in [
+    "C05_truncated_rejected_described3", "C05_truncated_compu_leaf", "C05_truncated_dtc_leaf", "Reads.ofConvValue", "Reads.ofDtcValue",
+    "Described3.decOk"]]
